@@ -152,3 +152,12 @@ pub struct Packet<T: flatty::Flat + Default + Copy> {
     pub tag: u8,
     pub body: Native<T>,
 }
+
+/// a sized struct whose SIZE (3) differs from its ALIGN (1): arrays / vectors of it have a non-trivial element stride
+#[derive(Default, Clone, Copy, Debug, PartialEq, Eq)]
+#[flat]
+pub struct B3 {
+    pub a: Bool,
+    pub b: Bool,
+    pub c: Bool,
+}
